@@ -1587,3 +1587,348 @@ theorem jsD_map_refused (P : FloatIO) (F : Json.ExtFloat) (Q : Nat → Prop)
 end
 
 end Xt.Bridge
+
+/-! ## What the JSON parser hands out is well-formed (every input) -/
+
+namespace Xt.Json
+
+theorem map_cons_some {o : Option (List Nat)} {c : Nat} {y : List Nat} (h : o.map (c :: ·) = some y) :
+    ∃ x, o = some x ∧ y = c :: x := by
+  cases o with
+  | none => simp at h
+  | some x => simp at h; exact ⟨x, rfl, h.symm⟩
+
+theorem allScalars_cons {c : Nat} {cps : List Nat} (hc : isScalar c = true) (h : allScalars cps = true) :
+    allScalars (c :: cps) = true := by
+  simp [allScalars] at h ⊢
+  exact ⟨hc, h⟩
+
+/-- What `str::from_utf8` accepts decodes to Unicode scalar values only. -/
+theorem utf8Decode_scalars : ∀ (l cps : List Nat), utf8Decode l = some cps → allScalars cps = true := by
+  intro l
+  fun_induction utf8Decode l <;> intro cps h
+  case case1 => simp at h; subst h; rfl
+  case case2 b0 rest h1 ih =>
+    obtain ⟨x, hx, rfl⟩ := map_cons_some h
+    exact allScalars_cons (by simp [isScalar]; omega) (ih x hx)
+  case case3 b0 h1 h2 b1 rest h3 ih =>
+    obtain ⟨x, hx, rfl⟩ := map_cons_some h
+    simp only [isCont, Bool.and_eq_true, decide_eq_true_eq] at h3
+    exact allScalars_cons (by simp [isScalar]; omega) (ih x hx)
+  case case6 b0 h1 h2 h3 b1 b2 rest h4 ih =>
+    obtain ⟨x, hx, rfl⟩ := map_cons_some h
+    obtain ⟨h4a, h4b, h4c⟩ := h4
+    simp only [isCont, Bool.and_eq_true, decide_eq_true_eq] at h4c
+    refine allScalars_cons ?_ (ih x hx)
+    simp only [isScalar, Bool.or_eq_true, Bool.and_eq_true, decide_eq_true_eq]
+    by_cases ha : b0 = 0xE0
+    · simp [ha] at h4a h4b; omega
+    · by_cases hb : b0 = 0xED
+      · simp [hb] at h4a h4b; omega
+      · simp [ha, hb] at h4a h4b; omega
+  case case9 b0 h1 h2 h3 h4 b1 b2 b3 rest h5 ih =>
+    obtain ⟨x, hx, rfl⟩ := map_cons_some h
+    obtain ⟨h5a, h5b, h5c, h5d⟩ := h5
+    simp only [isCont, Bool.and_eq_true, decide_eq_true_eq] at h5c h5d
+    refine allScalars_cons ?_ (ih x hx)
+    simp only [isScalar, Bool.or_eq_true, Bool.and_eq_true, decide_eq_true_eq]
+    by_cases ha : b0 = 0xF0
+    · simp [ha] at h5a h5b; omega
+    · by_cases hb : b0 = 0xF4
+      · simp [hb] at h5a h5b; omega
+      · simp [ha, hb] at h5a h5b; omega
+  all_goals simp at h
+
+theorem parseStr_scalars {bs cps rest : List Nat} (h : parseStr bs = .ok (cps, rest)) :
+    allScalars cps = true := by
+  unfold parseStr at h
+  split at h
+  · simp at h
+  · split at h
+    · simp at h
+    · rename_i c hd
+      simp at h
+      obtain ⟨rfl, _⟩ := h
+      exact utf8Decode_scalars _ _ hd
+
+/-- An integer the number lexer hands out is in serde_json's `u64` / `i64` class. -/
+theorem numVal_wf {p : Bool} {bs : List Nat} {n : Num} {src rest : List Nat}
+    (h : lexNumber p bs = .ok (n, src, rest)) : WF (fun _ => True) (numVal p n src) := by
+  unfold lexNumber at h
+  split at h
+  · simp at h
+  · split at h
+    · simp at h
+    · split at h
+      · simp at h
+      · split at h
+        · simp at h
+        · rename_i nn hc
+          simp at h
+          obtain ⟨rfl, _, _⟩ := h
+          cases nn with
+          | float => simp [numVal, WF]
+          | int i =>
+            simp only [numVal, WF]
+            unfold classifyNum at hc
+            split at hc
+            · simp only at hc
+              split at hc
+              · rename_i hle
+                unfold u64Max at hle
+                split at hc
+                · simp at hc; omega
+                · split at hc
+                  · simp at hc
+                  · split at hc
+                    · simp at hc; omega
+                    · simp at hc
+              · split at hc <;> simp at hc
+            · simp only at hc
+              repeat' split at hc
+              all_goals simp at hc
+
+theorem depthOf_numVal (p : Bool) (n : Num) (src : List Nat) : depthOf (numVal p n src) = 0 := by
+  cases n <;> rfl
+
+/-- Everything the parser hands out is well-formed (integers in serde_json's
+`u64` / `i64` classes, strings and keys Unicode scalar values) and nests within
+the depth budget it was given. -/
+theorem parse_wf : ∀ (n : Nat) (bs : List Nat), bs.length ≤ n →
+    (∀ d v rest, parseValue d bs = .ok (v, rest) →
+      WF (fun _ => True) v ∧ (depthOf v < d ∨ depthOf v = 0)) ∧
+    (∀ d first xs rest, parseElems d first bs = .ok (xs, rest) →
+      WFList (fun _ => True) xs ∧ (depthOfList xs < d ∨ depthOfList xs = 0)) ∧
+    (∀ d first es rest, parseEntries d first bs = .ok (es, rest) →
+      WFEntries (fun _ => True) es ∧ (depthOfEntries es < d ∨ depthOfEntries es = 0)) := by
+  intro n
+  induction n with
+  | zero =>
+    intro bs hlen
+    have : bs = [] := by cases bs <;> simp_all
+    subst this
+    refine ⟨?_, ?_, ?_⟩
+    · intro d v rest h; rw [parseValue_eq] at h; simp [skipWs] at h
+    · intro d first xs rest h; rw [parseElems_eq] at h; simp [skipWs] at h
+    · intro d first es rest h; rw [parseEntries_eq] at h; simp [skipWs] at h
+  | succ n ih =>
+    have hval : ∀ (bs : List Nat), bs.length ≤ n + 1 →
+        ∀ d v rest, parseValue d bs = .ok (v, rest) →
+          WF (fun _ => True) v ∧ (depthOf v < d ∨ depthOf v = 0) := by
+      intro bs hlen
+      have hskl := skipWs_length_le bs
+      intro d v rest h
+      rw [parseValue_eq] at h
+      split at h
+      · simp at h
+      · rename_i b r hs
+        rw [hs] at hskl
+        have hrl : r.length ≤ n := by simp at hskl; omega
+        split at h
+        · split at h
+          · simp at h
+          · simp at h; obtain ⟨rfl, _⟩ := h
+            exact ⟨by simp [WF], Or.inr rfl⟩
+        · split at h
+          · simp at h
+          · simp at h; obtain ⟨rfl, _⟩ := h
+            exact ⟨by simp [WF], Or.inr rfl⟩
+        · split at h
+          · simp at h
+          · simp at h; obtain ⟨rfl, _⟩ := h
+            exact ⟨by simp [WF], Or.inr rfl⟩
+        · split at h
+          · simp at h
+          · rename_i nn src r' hn
+            simp at h; obtain ⟨rfl, _⟩ := h
+            exact ⟨numVal_wf hn, Or.inr (depthOf_numVal _ _ _)⟩
+        · split at h
+          · simp at h
+          · rename_i nn src r' hn
+            simp at h; obtain ⟨rfl, _⟩ := h
+            exact ⟨numVal_wf hn, Or.inr (depthOf_numVal _ _ _)⟩
+        · split at h
+          · simp at h
+          · rename_i cps r' hp
+            simp at h; obtain ⟨rfl, _⟩ := h
+            exact ⟨by simpa [WF] using parseStr_scalars hp, Or.inr rfl⟩
+        · split at h
+          · simp at h
+          · rename_i hd
+            split at h
+            · simp at h
+            · rename_i xs r' hp
+              simp at h; obtain ⟨rfl, _⟩ := h
+              obtain ⟨h1, h2⟩ := (ih r hrl).2.1 _ _ _ _ hp
+              refine ⟨by simpa [WF] using h1, Or.inl ?_⟩
+              simp only [depthOf]; omega
+        · split at h
+          · simp at h
+          · rename_i hd
+            split at h
+            · simp at h
+            · rename_i es r' hp
+              simp at h; obtain ⟨rfl, _⟩ := h
+              obtain ⟨h1, h2⟩ := (ih r hrl).2.2 _ _ _ _ hp
+              refine ⟨by simpa [WF] using h1, Or.inl ?_⟩
+              simp only [depthOf]; omega
+        · simp at h
+    intro bs hlen
+    have hskl := skipWs_length_le bs
+    refine ⟨hval bs hlen, ?_, ?_⟩
+    · -- elements
+      intro d first xs rest h
+      rw [parseElems_eq] at h
+      split at h
+      · simp at h
+      · rename_i c r hs
+        rw [hs] at hskl
+        have hrl : r.length ≤ n := by simp at hskl; omega
+        split at h
+        · simp at h; obtain ⟨rfl, _⟩ := h
+          exact ⟨by simp [WFList], Or.inr rfl⟩
+        · split at h
+          · split at h
+            · simp at h
+            · rename_i v r1 hv
+              split at h
+              · simp at h
+              · rename_i vs r2 hvs
+                simp at h; obtain ⟨rfl, _⟩ := h
+                have hcr : (c :: r).length ≤ n + 1 := by omega
+                obtain ⟨a1, a2⟩ := hval _ hcr _ _ _ hv
+                have hl1 := parseValue_length hv
+                obtain ⟨b1, b2⟩ := (ih r1 (by omega)).2.1 _ _ _ _ hvs
+                refine ⟨⟨a1, b1⟩, ?_⟩
+                simp only [depthOfList]; omega
+          · split at h
+            · have hskl2 := skipWs_length_le r
+              split at h
+              · simp at h
+              · rename_i c2 r2 hs2
+                rw [hs2] at hskl2
+                split at h
+                · simp at h
+                · split at h
+                  · simp at h
+                  · rename_i v r3 hv
+                    split at h
+                    · simp at h
+                    · rename_i vs r4 hvs
+                      simp at h; obtain ⟨rfl, _⟩ := h
+                      obtain ⟨a1, a2⟩ := hval (c2 :: r2) (by simp at hskl2 ⊢; omega) _ _ _ hv
+                      have hl1 := parseValue_length hv
+                      obtain ⟨b1, b2⟩ := (ih r3 (by simp at hskl2 hl1; omega)).2.1 _ _ _ _ hvs
+                      refine ⟨⟨a1, b1⟩, ?_⟩
+                      simp only [depthOfList]; omega
+            · simp at h
+    · -- entries
+      intro d first es rest h
+      rw [parseEntries_eq] at h
+      split at h
+      · simp at h
+      · rename_i c r hs
+        rw [hs] at hskl
+        have hrl : r.length ≤ n := by simp at hskl; omega
+        split at h
+        · simp at h; obtain ⟨rfl, _⟩ := h
+          exact ⟨by simp [WFEntries], Or.inr rfl⟩
+        · split at h
+          · simp at h
+          · rename_i kbs hk
+            have hkc := keyStart_consumes hk
+            split at h
+            · simp at h
+            · rename_i k r3 hps
+              have hsl := parseStr_length hps
+              have hskl4 := skipWs_length_le r3
+              split at h
+              · simp at h
+              · rename_i c4 r4 hs4
+                rw [hs4] at hskl4
+                split at h
+                · simp at h
+                · split at h
+                  · simp at h
+                  · rename_i v r5 hv
+                    split at h
+                    · simp at h
+                    · rename_i es' r6 hes
+                      simp at h; obtain ⟨rfl, _⟩ := h
+                      have hkl : kbs.length ≤ (c :: r).length := by
+                        obtain ⟨pk, hpk, _⟩ := hkc; rw [hpk]; simp
+                      have hr4 : r4.length ≤ n := by simp at hskl4 hkl hskl; omega
+                      obtain ⟨a1, a2⟩ := (ih r4 hr4).1 _ _ _ hv
+                      have hl1 := parseValue_length hv
+                      obtain ⟨b1, b2⟩ := (ih r5 (by omega)).2.2 _ _ _ _ hes
+                      refine ⟨⟨⟨parseStr_scalars hps, a1⟩, b1⟩, ?_⟩
+                      simp only [depthOfEntries]; omega
+
+/-- Every document either JSON source loop hands out is well-formed and nests
+less than 128 deep — whatever the input bytes. -/
+theorem readerLoop_docs_wf : ∀ (n : Nat) (bs : List Nat), bs.length ≤ n →
+    ∀ d ∈ (readerLoop bs).1, WF (fun _ => True) d ∧ depthOf d < depthLimit := by
+  intro n
+  induction n with
+  | zero =>
+    intro bs hlen
+    have : bs = [] := by cases bs <;> simp_all
+    subst this
+    rw [readerLoop_eq]; simp [skipWs]
+  | succ n ih =>
+    intro bs hlen
+    rw [readerLoop_eq]
+    have hskl := skipWs_length_le bs
+    split
+    · simp
+    · rename_i b r hs
+      rw [hs] at hskl
+      split
+      · simp
+      · rename_i v rest hp
+        have hl := parseValue_length hp
+        obtain ⟨h1, h2⟩ := (parse_wf _ _ (Nat.le_refl _)).1 _ _ _ hp
+        intro d hd
+        simp only [List.mem_cons] at hd
+        rcases hd with rfl | hd
+        · exact ⟨h1, by unfold depthLimit at h2 ⊢; omega⟩
+        · exact ih rest (by simp at hl hskl; omega) d hd
+
+theorem sliceDocs_docs_wf : ∀ (n : Nat) (bs : List Nat), bs.length ≤ n →
+    ∀ d ∈ (sliceDocs bs).1, WF (fun _ => True) d ∧ depthOf d < depthLimit := by
+  intro n
+  induction n with
+  | zero =>
+    intro bs hlen
+    have : bs = [] := by cases bs <;> simp_all
+    subst this
+    rw [sliceDocs_eq]; simp [skipWs]
+  | succ n ih =>
+    intro bs hlen
+    rw [sliceDocs_eq]
+    have hskl := skipWs_length_le bs
+    split
+    · simp
+    · rename_i b r hs
+      rw [hs] at hskl
+      split
+      · simp
+      · rename_i v rest hp
+        have hl := parseValue_length hp
+        obtain ⟨h1, h2⟩ := (parse_wf _ _ (Nat.le_refl _)).1 _ _ _ hp
+        split
+        · intro d hd
+          simp only [List.mem_cons] at hd
+          rcases hd with rfl | hd
+          · exact ⟨h1, by unfold depthLimit at h2 ⊢; omega⟩
+          · exact ih rest (by simp at hl hskl; omega) d hd
+        · simp
+
+theorem sliceLoop_docs_wf (bs : List Nat) :
+    ∀ d ∈ (sliceLoop bs).1, WF (fun _ => True) d ∧ depthOf d < depthLimit := by
+  unfold sliceLoop
+  split
+  · exact sliceDocs_docs_wf _ bs (Nat.le_refl _)
+  · simp
+
+end Xt.Json
